@@ -17,7 +17,7 @@ from __future__ import annotations
 
 import z3
 
-from .values import SV, CV, XV, PV, Opaque, B, I, R, EngineError, to_z, is_sym
+from .values import SV, CV, XV, PV, Opaque, B, I, R, EngineError, to_z, is_sym, coerce
 from .arrays import Arr, Series, Table, FilteredTable, Space, ZipArr, subst, scalar_ite, _mask_and, _key, truth_z, require_same_mask, is_scalar
 from .interp import Native, PyRaise, CannotMerge
 
@@ -291,6 +291,71 @@ def arr_rank_set(it, arr, key, val):
     return None
 
 
+class KeyedRows:
+    """df.drop_duplicates(subset=[key], keep='first' | 'last'): per key value the first (last) row with it.
+    .set_index(key)[col] is the map  k -> col at the first (last) row whose key is k:  lookups are  col(w(k))  with the witness function w,
+        key(w(key(j))) == key(j)   and   w(key(j)) <= j  (first)  /  >= j  (last)      for every row j  (quantified axioms)"""
+
+    def __init__(self, table, key, keep, indexed=False, col=None):
+        self.table, self.key, self.keep, self.indexed, self.col = table, key, keep, indexed, col
+
+    def witness(self, it):
+        t = self.table
+        ke = to_z(t.cols[self.key])
+        w = z3.Function(f"{self.keep}-row[{t.name},{self.key}]", ke.sort(), I)
+        j = t.space.i
+        wk = w(ke)
+        order = wk <= j if self.keep == "first" else wk >= j
+        it.ctx.axiom(z3.ForAll([j], z3.Implies(z3.And(j >= 0, j < t.space.n),
+                                               z3.And(wk >= 0, wk < t.space.n, z3.substitute(ke, (j, wk)) == ke, order)), patterns=[wk]))
+        return w
+
+    def lookup(self, it, k):
+        """value of self.col at the kept row of key k"""
+        t = self.table
+        w = self.witness(it)
+        ke = to_z(t.cols[self.key])
+        wk = w(coerce(to_z(k), ke.sort()))
+        return subst(t.cols[self.col], t.space.i, wk)
+
+
+def keyedrows_attr(it, kr, name):
+    if name == "set_index":
+        def set_index(it, col, **k):
+            if col != kr.key:
+                raise EngineError("set_index of de-duplicated rows by another column")
+            return KeyedRows(kr.table, kr.key, kr.keep, True, kr.col)
+        return Native(set_index, name="set_index")
+    if name in ("at", "loc") and kr.indexed and kr.col is not None:
+        return _KeyedLookup(kr)
+    raise EngineError(f"de-duplicated frame .{name}")
+
+
+class _KeyedLookup:
+    def __init__(self, kr):
+        self.kr = kr
+
+    def sym_getitem(self, it, key):
+        if isinstance(key, Series):
+            key = key.arr()
+        if isinstance(key, Arr):
+            return Arr(key.space, self.kr.lookup(it, key.e), key.mask)
+        if is_scalar(key):
+            return self.kr.lookup(it, key)
+        raise EngineError("lookup in a de-duplicated frame")
+
+
+def _keyedrows_getitem(self, it, key):
+    if isinstance(key, str) and self.indexed:
+        if key not in self.table.cols:
+            raise PyRaise(KeyError(key))
+        return KeyedRows(self.table, self.key, self.keep, True, key)
+    raise EngineError("column of de-duplicated rows before set_index")
+
+
+KeyedRows.sym_getitem = _keyedrows_getitem
+
+
 class DataFrameCtor:
     """pd.DataFrame({...}) of aligned columns -> a table over their row space"""
     __name__ = "DataFrame"
@@ -366,3 +431,4 @@ class SeriesCtor:
 def install(it):
     reset()
     it.attr_hooks.append((SymMap, symmap_attr))
+    it.attr_hooks.append((KeyedRows, keyedrows_attr))
